@@ -170,12 +170,19 @@ def program(r, nfunc=3, size=18, cpp=False):
     # an 'else' behind nested brace-less statements whose innermost body is a braced if without else
     out.append("int vnest(int a) { int r = 0; int i; if (a) for (i = 0; i < 2; i++) while (r < 3) { if (i) r++; else r += 2; } else r = 7;\n"
                "  if (a > 1) for (i = 0; i < 2; i++) while (r < 9) { if (i) r += 3; } else r = 5; return r; }")
+    # a 'return;' that is not the last statement, a label in front of the last one; an assignment inside a Boolean condition
+    out.append("void vret(void) { g0++; if (g0 > 100) goto done; g1++; return; g2++;\ndone: return; }")
+    out.append("int vasg(int a) { int x; if (x = a == 1 && g1) return x; if ((x = a) == 2 || g2) return x + 1; return 0; }")
+    out.append("double vnum(void) { return 0xe + 1 + 0x1E - 2 + 1e1 - 4 + 0xe +g0 + 0xE -g1; }")
     out.append("#define FOREVER for (;;)")
     # statements as macro bodies, without their semicolon and with trailing comments: the mod_ options work inside directives too
     out.append("#define RET_A return a // result\n#define RET_SUM return a + \\\n  g0 /* sum */\n#define BUMP if (g1) g2++ // bump")
     out.append("int vmac(int a) { BUMP; if (a > 3) { RET_SUM; } RET_A; }")
     out.append("int vspin(int a) { SPIN(a > 2) FOREVER { if (a) break; } return a; }")
+    # closing braces with code behind them on the same line (the closing-brace comment options add '// ...' there)
+    out.append("int vsw(int a, int b) { int r = 0; switch (a) { case 1: switch (b) { case 2:\n r = 1;\n break;\n default:\n r = 2;\n } break;\n case 2:\n r = 3;\n break;\n default:\n r = 4; } return r; }")
     if cpp:
+        out.append("namespace outer { namespace inner {\nint nsv = 1;\nint nsf(int a) { return a + nsv; }\n} }\nint vns(int a) { return outer::inner::nsf(a); }")
         out.append("int vtry(int a) { if (a) { try { a = f0(a); } catch (...) { a = 0; } } a++; return a; }")
     return "\n".join(out) + "\n"
 
